@@ -804,9 +804,67 @@ def c34(ctx):
                 ob.query(r.pc, z3.And(width >= 1, width <= div, frac >= 1, frac < pow10(width), frac % 10 != 0,
                                       amount == whole * cutoff + frac * pow10(div - width)),
                          ob.vars, "amount == whole*10^div + frac*10^(div-width), frac < 10^width, no trailing zero")
+    c34_accepts_printed(ctx)
     guarded(ctx, "c34_pile_display_numbers", "the numbers Pile's Display prints (whole[.fraction zero-padded to width]) decompose the amount exactly at its divisibility",
             "all u128 amounts, divisibility 0..=38; the rendering of integers to digits is not encoded (format arguments are recorded)", "dev", ob_pile,
             lambda v: _rep_pile(ctx, v))
+
+
+def c34_accepts_printed(ctx):
+    """Completeness on the strings Pile prints: W or W.F with 1..=38 fractional digits,
+    no trailing zero, denoting a value that fits u128 -> Decimal::from_str must accept."""
+    def body(ob):
+        exq = ob.ex()
+        s0 = X.SymStr("amt")
+        f = exq.find_impl_fn("decimal", "from_str", r"^impl FromStr for Decimal")
+        res = exq.run(f, [s0], X.State())
+        ob.paths += len(res)
+        for r in res:
+            if r.kind != "return" or r.value.variant != 1:
+                continue
+            sa = r.strattrs
+            d = sa.get(s0.id, {})
+            conds = []
+            taken = [(a, b) for _, a, b, took in d.get("splits", []) if not exq.feasible(r.pc, z3.Not(took))]
+            undecided = [1 for _, a, b, took in d.get("splits", []) if exq.feasible(r.pc, took) and exq.feasible(r.pc, z3.Not(took))]
+            if undecided:
+                continue
+            if taken:
+                a, b = taken[0]
+                for part in (a, b):
+                    pa = sa.get(part, {})
+                    if "parse_u128" in pa:
+                        conds.append(pa["parse_u128"][1])          # the part is a valid unsigned integer literal
+                ca, cb = sa[a]["count"], sa[b]["count"]
+                conds += [ca >= 1, cb >= 1, cb <= 38]
+                if "tz" in sa.get(b, {}):
+                    conds.append(sa[b]["tz"] == 0)
+                I = sa[a]["parse_u128"][0] if "parse_u128" in sa[a] else None
+                D = sa[b]["parse_u128"][0] if "parse_u128" in sa.get(b, {}) else None
+                if I is not None and D is not None:
+                    conds.append(I * pow10(cb) + D <= U128)
+                elif I is not None:
+                    # the fractional part was never parsed on this path: any digits; only the
+                    # integer part bounds representability
+                    conds.append((I + 1) * pow10(cb) - 1 <= U128)
+            else:
+                pa = d.get("parse_u128")
+                if pa is None:
+                    continue
+                conds.append(pa[1])
+            ob.squery(r, z3.Not(z3.And(*conds)) if conds else False, "a printed amount that fits u128 is rejected", s0.id)
+    def replay(v):
+        text = v.get("string")
+        if not text:
+            return None
+        a = ctx.native(["decimal_parse " + text], "dev")[0]
+        want = exact_decimal(text)
+        if a == "err" or a == "PANIC" or (isinstance(a, dict) and "ok" not in a):
+            if want is not None and want[0] <= U128 and want[1] <= 38:
+                return {"string": text, "native": a, "denotes": want}
+        return None
+    sguarded(ctx, "c34_from_str_accepts_printed_amounts", "Decimal::from_str accepts every string of the shape Pile prints (W or W.F, 1..=38 fractional digits, no trailing zero) whose value fits u128",
+             "every such string (abstract parts as in C31); dev profile", "lift-dev", body, replay)
 
 
 def _rep_to_integer(ctx, v):
@@ -1092,7 +1150,7 @@ def c31_sat(ctx, profile):
             sp = split_of(r3)
             A, B, Cc = parsed(sa, a, "u32"), parsed(sa, b, "u32"), parsed(sa, c, "u32")
             Dd = parsed(sa, sp[0], "u64") if sp else z3.IntVal(0)
-            ob.squery(r, z3.And(sat >= 0, sat <= SUPPLY), "returned sat outside [0, SUPPLY]", s0.id)
+            ob.squery(r, z3.And(sat >= 0, sat < SUPPLY), "returned sat is not below the supply", s0.id)
             for k, inb, hh, tt in epoch_cases(exq, r.pc, sat):
                 ob.squery(r, z3.Implies(inb, z3.And(hh / (6 * HALVING) == A, hh % HALVING == B, hh % DIFFCHANGE == Cc, tt == Dd)),
                           "accepted degree string denotes a different sat (epoch %d)" % k, s0.id)
@@ -1106,6 +1164,8 @@ def c31_sat(ctx, profile):
                 return {"string": text, "native": "PANIC", "profile": tag}
             if isinstance(a, dict) and "ok" in a:
                 n = int(a["ok"])
+                if n >= SUPPLY:
+                    return {"string": text, "accepted_as": n, "profile": tag, "note": "accepted as a sat at or above the supply (no such sat)"}
                 b = ctx.native(["sat_notations %d" % n], nat_profile(profile))[0] if n < SUPPLY else None
                 if kind == "degree":
                     nums = [int(x) for x in re.findall(r"\d+", text)]
@@ -1145,7 +1205,7 @@ def c31_sat(ctx, profile):
             sa = r.strattrs
             a, b = [(x, y) for _, x, y, took in sa[s0.id]["splits"] if not exq.feasible(r.pc, z3.Not(took))][0]
             H, O = parsed(sa, a, "u32"), parsed(sa, b, "u64")
-            ob.squery(r, z3.And(sat >= 0, sat <= SUPPLY), "returned sat outside [0, SUPPLY]", s0.id)
+            ob.squery(r, z3.And(sat >= 0, sat < SUPPLY), "returned sat is not below the supply", s0.id)
             for k, inb, hh, tt in epoch_cases(exq, r.pc, sat):
                 ob.squery(r, z3.Implies(inb, z3.And(hh == H, tt == O)), "accepted H.O denotes a different sat (epoch %d)" % k, s0.id)
     sguarded(ctx, "c31_sat_from_decimal_" + tag, "Sat::from_decimal never panics and accepts H.O only as the sat at offset O of block H",
